@@ -252,7 +252,7 @@ def rule_codec(ctx):
     declares the true length in the form it chose (C02.enc), and the reader of packed strings yields the format's
     alphabet for every header byte (C02.unpack; the alphabets themselves are compared with the format table by C02.spec)"""
     scratch = Ctx(ctx.repo, "C01", ctx.tier)
-    for r in ("C01.tags", "C01.int", "C01.class", "C01.pack", "C01.dbl", "C01.unpack"):
+    for r in ("C01.tags", "C01.int", "C01.class", "C01.pack", "C01.dbl", "C01.unpack", "C01.count"):
         scratch.rule(r, "", 0)
     widths = c01.rule_int(scratch)
     c01.rule_class(scratch, widths)
@@ -260,7 +260,8 @@ def rule_codec(ctx):
     tables = c01.rule_pack(scratch)
     if tables:
         c01.rule_unpack(scratch, tables)
-    ctx.adopt(scratch, {"C01.int": "C02.enc", "C01.class": "C02.enc", "C01.unpack": "C02.unpack"})
+    c01.rule_count(scratch)
+    ctx.adopt(scratch, {"C01.int": "C02.enc", "C01.class": "C02.enc", "C01.count": "C02.enc", "C01.unpack": "C02.unpack"})
 
 
 def run(ctx):
@@ -274,9 +275,9 @@ def run(ctx):
     ctx.assume("reference/tokens.json is WhatsApp's dictionary (the pinned upstream table; no second source offline)")
     ctx.assume("reference/format.json transcribes the published format description")
     fmt = load_ref("format.json")
-    rule_spec(ctx, fmt)
-    rule_alts(ctx, fmt)
-    rule_type(ctx)
-    rule_dictref(ctx)
-    rule_flags(ctx, fmt)
-    rule_codec(ctx)
+    ctx.guarded("C02.spec", rule_spec, ctx, fmt)
+    ctx.guarded("C02.alts", rule_alts, ctx, fmt)
+    ctx.guarded("C02.type", rule_type, ctx)
+    ctx.guarded("C02.dictref", rule_dictref, ctx)
+    ctx.guarded("C02.flags", rule_flags, ctx, fmt)
+    ctx.guarded("C02.codec", rule_codec, ctx)
